@@ -57,7 +57,7 @@ def expected(order, units, dropins):
 
 
 def run(ctx):
-    ctx.rule = ("layouts of 1-3 search directories (QUADLET_UNIT_DIRS), each optionally with a subdirectory, in 30% of the layouts one of them a symbolic link (absolute or relative target) to the directory holding the files; 1-5 unit names (plain, template, template instance, an instance whose instance name contains @ or a dot, volume) each placed in 1-2 "
+    ctx.rule = ("layouts of 1-3 search directories (QUADLET_UNIT_DIRS), each optionally with a subdirectory, in 30% of the layouts one of them a symbolic link (absolute or relative target, directly or through a second link) to the directory holding the files, in some a subdirectory that is a symbolic link to a directory elsewhere; 1-5 unit names (plain, template, template instance, an instance whose instance name contains @ or a dot, volume) each placed in 1-2 "
                 "directories; drop-in files (*.conf and a non-conf decoy) placed in <unit>.d and <base>@.<type>.d directories of arbitrary search directories; every file carries a marker (a label, and a PodmanArgs tag that shows the merge order); "
                 "run end to end with --dry-run; non-trivial = a name occurs twice or a drop-in lives in another search dir than its unit; distinct = distinct layouts")
     rng = ctx.rng
@@ -84,8 +84,23 @@ def run(ctx):
                 # one configured search directory is a symbolic link to the directory that holds the files (absolute or relative target)
                 dk = rng.choice(dirs); link = rng.choice(["absolute", "relative"])
                 os.rename(os.path.join(root, dk), os.path.join(root, "real_" + dk))
-                os.symlink(os.path.join(root, "real_" + dk) if link == "absolute" else "real_" + dk, os.path.join(root, dk))
+                if rng.random() < 0.4:
+                    # ... through a chain of two links
+                    os.symlink(os.path.join(root, "real_" + dk) if link == "absolute" else "real_" + dk, os.path.join(root, "hop_" + dk))
+                    os.symlink(os.path.join(root, "hop_" + dk) if link == "absolute" else "hop_" + dk, os.path.join(root, dk))
+                    link += " chain of two"
+                else:
+                    os.symlink(os.path.join(root, "real_" + dk) if link == "absolute" else "real_" + dk, os.path.join(root, dk))
                 ctx.count("symlinked_search_dir:" + link)
+            subs = [d for d in order if d.endswith("/sub")]
+            if subs and rng.random() < 0.3:
+                # a SUBDIRECTORY of a search directory is a symbolic link to a directory elsewhere: it is a subdirectory all the same
+                sd = rng.choice(subs); top = sd.split("/")[0]
+                real_top = os.path.realpath(os.path.join(root, top))
+                os.rename(os.path.join(real_top, "sub"), os.path.join(root, "elsewhere_" + top))
+                os.symlink(rng.choice([os.path.join(root, "elsewhere_" + top), os.path.relpath(os.path.join(root, "elsewhere_" + top), real_top)]), os.path.join(real_top, "sub"))
+                link = (link or "") + " + symlinked subdirectory"
+                ctx.count("symlinked_subdirectory")
             rc, out, err = e2e.run_quadlet([os.path.join(root, d) for d in dirs], os.path.join(root, "out"), dry_run=True)
             svcs = e2e.parse_dry_run(out)
             exp = expected(order, units, dropins)
